@@ -47,7 +47,8 @@ def run_impl(scripts, crypto_of=None, workers=12):
 
 
 def judge(ops, res, which):
-    f = orc.Facts(ops, res, gen.IMM, gen.NUL)
+    imm, nul = gen.tables(ops)  # by HAP type of the test characteristics (the property's notion)
+    f = orc.Facts(ops, res, imm, nul)
     return orc.oracle_c13(f) if which == "C13" else orc.oracle_c12(f)
 
 
@@ -86,7 +87,13 @@ def evaluate(ctx: Ctx, scripts, which, compare_model=True, crypto_of=None, sampl
     impl = run_impl(scripts, crypto_of)
     from ref.sysev_world import code_tables
 
-    imm, nul = code_tables()  # the model is configured with the code's own tables; the oracle is not
+    # the model is configured with the code's own tables; the oracle is not
+    tabs = {False: code_tables(False), True: code_tables(True)}
+
+    def mline(ops):
+        imm, nul = tabs[gen.is_bridge(ops)]
+        return gen.model_line(ops, imm=imm, nul=nul)
+
     model = [None] * len(scripts)
     if compare_model:
         # The theorems of C13 are proved for the model with the C13 repair and *either* setting of the
@@ -96,7 +103,7 @@ def evaluate(ctx: Ctx, scripts, which, compare_model=True, crypto_of=None, sampl
                     (False, False, "without the C12 repairs (discard_stale_event, discard_event)")]
         ok = False
         for fix12, fixr, label in variants:
-            lines = [dict(gen.model_line(ops, imm=imm, nul=nul), fix12=fix12, fixResub=fixr) for ops in scripts]
+            lines = [dict(mline(ops), fix12=fix12, fixResub=fixr) for ops in scripts]
             model = run_model_parallel(which, lines, workers=12)
             ok = all("fatal" not in m and gen.first_difference(m, gen.canon_impl(r)) is None
                      for m, r in zip(model, impl) if "crash" not in r)
@@ -107,7 +114,7 @@ def evaluate(ctx: Ctx, scripts, which, compare_model=True, crypto_of=None, sampl
                                     "missing repair (C12_quiescent / C12_delivered_current) do not apply to that variant")
                 break
         if not ok:  # neither variant matches: report against the repaired model
-            lines = [gen.model_line(ops, imm=imm, nul=nul) for ops in scripts]
+            lines = [mline(ops) for ops in scripts]
             model = run_model_parallel(which, lines, workers=12)
     for idx, (ops, r, m) in enumerate(zip(scripts, impl, model)):
         for op in ops:
